@@ -71,11 +71,11 @@ UScalar == {"short", "int", "long", "llong", "uint", "ulong", "bint", "float", "
 UAll    == UScalar \cup {"mvi", "mvl", "mvf", "mvd", "mvd2"}
 UQuick  == {"short", "int", "long", "ulong", "bint", "float", "double", "dc", "object", "list", "mvi", "mvd", "mvd2"}
 UMulti  == {"int", "long", "double", "object", "mvd"}
-UThor3  == UNum \cup {"list", "mvd", "mvi"}
-UNum4   == {"int", "long", "uint", "ulong", "bint", "float", "double", "fc", "dc"}
 UMultiQ == {"int", "double", "object", "mvd"}
 UNum    == {"short", "int", "long", "llong", "uint", "ulong", "bint", "float", "double", "fc", "dc", "object"}
 UNumQ   == UNum \ {"uint"}
+UThor3  == UNum \cup {"list", "mvd", "mvi"}
+UNum4   == {"int", "long", "uint", "ulong", "bint", "float", "double", "fc", "dc"}
 UNone   == {}
 
 (* argument kinds: cls Python class, neg/bits magnitude of an int, src/dt/nd *)
